@@ -3,6 +3,7 @@ from typing import Any
 
 import numpy as np
 import pandas as pd
+from pandas.api.types import is_string_dtype
 from sklearn.compose import ColumnTransformer  # type: ignore
 from sklearn.feature_selection import RFECV, VarianceThreshold  # type: ignore
 from sklearn.preprocessing import (  # type: ignore
@@ -22,7 +23,7 @@ CATEGORY_THRESHOLD = 15
 
 
 def _is_categorical(column: pd.Series) -> bool:
-    return column.dtype == "object" or column.nunique() <= CATEGORY_THRESHOLD
+    return is_string_dtype(column.dtype) or column.nunique() <= CATEGORY_THRESHOLD
 
 
 def _get_feature_types(df: pd.DataFrame) -> tuple[list[str], list[str], list[str]]:
@@ -35,7 +36,7 @@ def _get_feature_types(df: pd.DataFrame) -> tuple[list[str], list[str], list[str
         nunique = column.nunique()
         if nunique <= CATEGORY_THRESHOLD:
             categorical_features.append(colname)
-        elif column.dtype == "object":
+        elif is_string_dtype(column.dtype):  # `object` and the dedicated string dtypes
             text_features.append(colname)
         else:
             continuous_features.append(colname)
